@@ -154,9 +154,9 @@ CHECKS = {
             'with the same bindings), breadth-first closure of the reachable canonical heap fingerprints (each expansion '
             'replayed in a forked child), repetition ladders for retained traceback/frame objects, and exhaustive '
             'host-value immutability sweeps; ' + K1,
-            'All histories of <= 2/3 operations over a 37-operation alphabet (30 residue-leaving formulas incl. failing '
+            'All histories of <= 2/3 operations over a 39-operation alphabet (32 residue-leaving formulas incl. failing '
             'ones that read cells first, raising callbacks, reversed ranges and equal-but-differently-typed values; rebinding; listener on/off; the host changing every cell and range value between two evaluations) '
-            'are replayed in a PRISTINE process (fork server started before anything is evaluated) and followed by 25 '
+            'are replayed in a PRISTINE process (fork server started before anything is evaluated) and followed by 27 '
             'probes, each compared with its outcome as the only evaluation of a pristine process, with debug off and on; the '
             'set of heap states reachable by parse operations is searched to a fixpoint (~150 states on the current tree), '
             'which decides the unbounded-repetition clause; interpreter-wide settings (recursion limit, int/str digit limit, locale, time zone, environment ...) are compared before and after every evaluation; results that are lists are mutated by the host and the formula evaluated again (no aliasing of caches); every documented function x '
